@@ -268,6 +268,14 @@ def getitem(base: T, idx: T) -> T:
         e_ = _map_loop_element(base, idx)
         if e_ is not None:
             return e_
+        ap_ = Evaluator.appended_elements(base)
+        if ap_ is not None and ap_[1] is not None and ap_[2] is not None:
+            # L = []; for i in range(n): L.append(E(i))   is   [E(i) for i in range(n)]:  L[k] == E(k)
+            E_, it_, rng_ = ap_
+            if rng_.op == "call" and rng_.args[0].op == "name" and rng_.args[0].args[0] == "builtins.range" and \
+                    len(rng_.args) == 2 and rng_.args[1].op != "kw" and not (
+                        idx.op == "const" and not (isinstance(idx.args[0], int) and idx.args[0] >= 0)):
+                return substitute(E_, {it_: idx})
     if idx.op != "slice" and _running_factorial(base):
         # accumulate(range(1, M), operator.mul)[n]  ==  1 * 2 * ... * (n + 1)  ==  (n + 1)!
         return call(name("math.factorial"), mk("binop", "+", idx, const(1)))
@@ -395,6 +403,10 @@ def sequence_length(t: T) -> Optional[T]:
         cr = _comp_range(t)
         if cr is not None:
             return cr[2]
+    if t.op == "loopout" and len(t.args) == 4:
+        ap_ = Evaluator.appended_elements(t)
+        if ap_ is not None and ap_[2] is not None:
+            return sequence_length(ap_[2])       # one append per iteration of the filling loop
     if t.op == "call" and t.args[0].op == "name":
         nm = t.args[0].args[0]
         pos = [a for a in t.args[1:] if a.op != "kw"]
@@ -1936,6 +1948,9 @@ class Evaluator:
             r = self.inline_closure(fr, f, args, kws, line)
             if r is not None:
                 return r
+        if kws and f.op in ("attr", "fn", "cls") and not any(
+                isinstance(a, T) and a.op in ("star", "dstar") for a in list(args) + list(kws)):
+            args, kws = self._keywords_to_positions(fr, f, list(args), list(kws))
         # functional array update  X.at[idx].set(v)  ==  X with slot idx replaced by v
         if f.op == "attr" and f.args[1] == "set" and len(args) == 1 and not kws:
             tgt = f.args[0]
@@ -2014,6 +2029,69 @@ class Evaluator:
         if self.open_transforms and self._depth < self.MAX_INLINE_DEPTH:
             self._open_transform(fr, t, line)
         return t
+
+    def call_binding(self, t: T, fr=None, cls: Optional[str] = None) -> Optional[Dict[str, T]]:
+        """{parameter name: argument term} of a call of a package function / method, through the signature the callee
+        resolves to (all candidates must agree).  `cls`: class to resolve self.<method> in when no frame is at hand.
+        None: not a package callee, ambiguous, or the call does not bind."""
+        from .model import bind_call
+        if t.op != "call":
+            return None
+        f, pos, kws = call_parts(t)
+        f = transparent(f)
+        cands = None
+        try:
+            cands = self.resolve_callees(f, fr)
+        except Exception:
+            cands = None
+        if not cands and cls is not None and f.op == "attr":
+            fi = self.p.lookup_method(cls, f.args[1])
+            cands = [(fi, cls)] if fi is not None else None
+        if not cands:
+            return None
+        out = None
+        for callee, _rc in cands:
+            if callee is None:
+                return None
+            bound = f.op == "attr" and not callee.is_staticmethod
+            ok, _, mp = bind_call(callee, len(pos), list(kws), bound)
+            if not ok:
+                return None
+            b = {n_: (pos[m_[1]] if m_[0] == "pos" else kws[m_[1]]) for n_, m_ in mp.items()}
+            if out is not None and {k: v.uid for k, v in out.items()} != {k: v.uid for k, v in b.items()}:
+                return None
+            out = b
+        return out
+
+    def _keywords_to_positions(self, fr, f: T, args: List[T], kws: List[T]):
+        """f(a, y=b) -> f(a, b) when f resolves to package callee(s) with one positional signature: the call term
+        (and with it every rule that reads call arguments) does not depend on how the caller spelled the binding.  Only
+        the keywords that continue the positional prefix are moved; a keyword after a skipped defaulted parameter stays."""
+        try:
+            cands = self.resolve_callees(f, fr)
+        except Exception:
+            cands = None
+        if not cands:
+            return args, kws
+        sigs = set()
+        for callee, _rc in cands:
+            if callee is None or any(q.kind in ("vararg", "kwarg") for q in callee.params):
+                return args, kws
+            pp = [q.name for q in callee.pos_params()]
+            if pp and ((f.op == "attr" and not callee.is_staticmethod) or (f.op == "cls" and pp[0] == "self")):
+                pp = pp[1:]
+            sigs.add(tuple(pp))
+        if len(sigs) != 1:
+            return args, kws
+        sig = next(iter(sigs))
+        kwd = {k.args[0]: k.args[1] for k in kws if k.op == "kw"}
+        if len(kwd) != len(kws):
+            return args, kws
+        i = len(args)
+        while i < len(sig) and sig[i] in kwd:
+            args.append(kwd.pop(sig[i]))
+            i += 1
+        return args, [k for k in kws if k.args[0] in kwd]
 
     _OPERATORS = {"add": "+", "sub": "-", "mul": "*", "truediv": "/", "floordiv": "//", "mod": "%", "pow": "**",
                   "matmul": "@", "and_": "&", "or_": "|", "xor": "^"}
